@@ -3,13 +3,13 @@
 use super::*;
 
 /// Reference result of scanning a JSON string token body (after the opening quote).
-struct RefString {
-    ok: bool,
+pub(super) struct RefString {
+    pub(super) ok: bool,
     /// decoded scalar values
-    out: [u32; 8],
-    n_out: usize,
+    pub(super) out: [u32; 8],
+    pub(super) n_out: usize,
     /// bytes consumed including the closing quote
-    consumed: usize,
+    pub(super) consumed: usize,
 }
 
 fn hex_val(b: u8) -> Option<u32> {
@@ -36,7 +36,7 @@ fn ref_hex4(b: &[u8], i: usize) -> Option<u32> {
 /// surrogate must be followed by an escaped low surrogate; lone surrogates are
 /// rejected because the result must be a sequence of Unicode scalar values).
 /// `body` must be valid UTF-8 (it comes from a `&str`).
-fn ref_json_string(body: &[u8]) -> RefString {
+pub(super) fn ref_json_string(body: &[u8]) -> RefString {
     let mut r = RefString { ok: false, out: [0; 8], n_out: 0, consumed: 0 };
     let n = body.len();
     let mut i = 0;
@@ -174,7 +174,7 @@ macro_rules! c20_json_string_harness {
     };
 }
 
-// @harness id=c20_json_string_3 props=C20,C01 tier=quick cap=1500
+// @harness id=c20_json_string_3 props=C20,C01:thorough tier=quick cap=1500
 // @desc parse_json::Lexer::lex_string on a quote followed by every valid-UTF-8 string of 3 bytes: accepted iff RFC 8259 section 7 accepts, decoded characters and consumed length equal the reference decoder's
 // @bound 3 arbitrary bytes after the opening quote (all single escapes, raw characters of 1-3 bytes, control characters, unterminated strings)
 // @funcs parse_json::Lexer::lex_string, parse_json::Lexer::eat_char, parse_json::Lexer::eat_any_char
@@ -186,7 +186,7 @@ c20_json_string_harness!(c20_json_string_3, 3, 8);
 // @funcs parse_json::Lexer::lex_string
 c20_json_string_harness!(c20_json_string_5, 5, 10);
 
-// @harness id=c20_json_string_uescape props=C20,C01 tier=quick cap=1500
+// @harness id=c20_json_string_uescape props=C20,C01:thorough tier=quick cap=1500
 // @desc lex_string on `"\uXXXX"` and `"\uXXXX\uYYYY"` with arbitrary bytes in the eight X/Y positions: hex decoding, surrogate pairing and rejection of lone or mismatched surrogates equal the reference
 // @bound templates of 8 and 14 bytes with 4 / 8 arbitrary bytes
 // @funcs parse_json::Lexer::lex_string
@@ -266,14 +266,14 @@ fn stub_parse_f64(_s: &str) -> Result<f64, core::num::ParseFloatError> {
     Ok(x)
 }
 
-// @harness id=c20_json_number_5 props=C20,C06,C01 tier=quick cap=1500
+// @harness id=c20_json_number_5 props=C20,C06,C01:thorough tier=quick cap=1500
 // @desc parse_json::Lexer::lex_number on every ASCII string of 5 bytes: the accepted prefix is exactly the longest RFC 8259 section 6 number token, malformed numbers (-, leading zeros incl. after a minus sign, missing fraction or exponent digits) are errors, and Ok(Some(x)) implies x is finite
 // @bound 5 arbitrary ASCII bytes; the decimal-to-double conversion (str::parse::<f64>) is stubbed by an arbitrary non-NaN double
 // @funcs parse_json::Lexer::lex_number, parse_json::Lexer::eat_digit_0_9, parse_json::Lexer::eat_digit_1_9
 // @out correct rounding of str::parse::<f64> (Rust dec2flt, trusted)
 #[kani::proof]
 #[kani::unwind(8)]
-#[kani::stub(core::str::<impl str>::parse::<f64>, stub_parse_f64)]
+#[kani::stub(<f64 as core::str::FromStr>::from_str, stub_parse_f64)]
 fn c20_json_number_5() {
     let buf: [u8; 5] = kani::any();
     kani::assume(buf[0] < 0x80 && buf[1] < 0x80 && buf[2] < 0x80 && buf[3] < 0x80 && buf[4] < 0x80);
